@@ -237,14 +237,25 @@ def r4_r5(tree, rep):
               key="C13.R4:handle_open:duplicate")
     rg = tree.func(SUB, "SubchannelDemultiplex", "register")
     g = build(rg)
-    loops = [n for n in g.nodes(lambda s: isinstance(s, ast.While))]
+    loops = [n for n in g.nodes(lambda s: isinstance(s, (ast.While, ast.For)))]
     ok = len(loops) == 1
     if ok:
         lp = g.stmt[loops[0]]
-        pops = [c for c in ast.walk(lp) if isinstance(c, ast.Call) and isinstance(c.func, ast.Attribute) and c.func.attr == "popleft"]
         cn = [c for c in ast.walk(lp) if isinstance(c, ast.Call) and dotted(c.func) == "self._connect"]
         st = g.nodes(lambda s: isinstance(s, ast.Assign) and any(isinstance(t, ast.Subscript) and is_self_attr(t.value, "_factories") for t in s.targets))
-        ok = len(pops) == 1 and len(cn) == 1 and len(st) == 1 and not g.precedes(st, loops)
+        taken = [c for c in ast.walk(rg) if isinstance(c, ast.Call) and dotted(c.func) == "self._pending_opens.pop"]
+        if isinstance(lp, ast.While):
+            # drained from the head:  while pending: (t, addr) = pending.popleft()
+            pops = [c for c in ast.walk(lp) if isinstance(c, ast.Call) and isinstance(c.func, ast.Attribute) and c.func.attr == "popleft"]
+            oldest_first = len(pops) == 1
+        else:
+            # or walked front to back:  for (t, addr) in pending   (the deque itself, not reversed(..) / sorted(..))
+            it = lp.iter
+            oldest_first = isinstance(it, ast.Name) and all(
+                (isinstance(d, ast.Call) and dotted(d.func) == "self._pending_opens.pop") or (isinstance(d, (ast.Tuple, ast.List)) and not d.elts)
+                or (isinstance(d, ast.Call) and dotted(d.func) in ("deque", "list", "tuple") and not d.args) for d in local_defs(rg, it.id)) \
+                and bool(local_defs(rg, it.id))
+        ok = oldest_first and len(taken) == 1 and len(cn) == 1 and len(st) == 1 and not g.precedes(st, loops)
     rep.check("C13.R4", "register() records the factory, then connects the pending OPENs of that name oldest first", ok, site(rg, SUB), key="C13.R4:register")
     connect_order(tree, rep, "C13.R4")
     # R5 who may write _open_subchannels
